@@ -509,6 +509,30 @@ func (p *peer) setHoldMethod(m uint16, v bool) {
 	p.mu.Unlock()
 }
 
+func (p *peer) setNoDisembargo(v bool) {
+	p.mu.Lock()
+	p.noDisembargo = v
+	p.mu.Unlock()
+}
+
+// echoDisembargoes answers every senderLoopback Disembargo received so far.
+func (p *peer) echoDisembargoes() {
+	p.mu.Lock()
+	var out [][][]byte
+	var exp uint32
+	for id := range p.exports {
+		exp = id
+		break
+	}
+	for _, id := range p.embargo {
+		out = append(out, mkDisembargo(rpccp.Disembargo_context_Which_receiverLoopback, id, func(t rpccp.MessageTarget) { t.SetImportedCap(exp) }))
+	}
+	p.mu.Unlock()
+	for _, s := range out {
+		p.lk.PeerSendSegs(s)
+	}
+}
+
 func (p *peer) lastQuestion() uint32 {
 	p.mu.Lock()
 	defer p.mu.Unlock()
